@@ -15,7 +15,9 @@ RULE = ("Hypothesis-generated parameter assignments for each of the 21 primitive
         "modules with dict, flat-paramclass and Scalar-typed parameters (Prefixed with all 21 prefixes and 1..40-digit "
         "mantissas, ints to +-2^63, floats incl. subnormals/extremes, Decimals, canonical numeric strings, non-numeric "
         "strings incl. padded/unicode/empty, Literals, str enums, None, raw 0/0.0/''), exported through to_proto and "
-        "compared with a reference encoder; plus to_scalar on every value form. Non-trivial = a non-integral value with >15 "
+        "compared with a reference encoder; plus to_scalar on every value form; plus (1 case in 40) order cases: two values - "
+        "often the same number written differently, or the same digits under another prefix - exported one after the other in "
+        "either order in a fresh process must each export byte-for-byte as they do alone in a fresh process. Non-trivial = a non-integral value with >15 "
         "significant digits, or a prefix other than UNIT, or a string; distinct by canonical case text.")
 ASSUME = ["a float converts to the Prefixed of its repr() digits (Decimal(repr(x))) or of its exact binary value - either accepted",
           "ambiguous strings (whitespace-padded numerics, '1_000', 'nan', 'inf') and Decimal-valued external parameters are recorded, not asserted",
@@ -339,14 +341,75 @@ def check_instance(case):
     return out, notes
 
 
+def _export_seq(carrier, vals):
+    """(runs in a pristine child) export one module per value, in order -> serialized ParamValue of each, or 'raised:<type>'"""
+    g = H()
+    h = g["h"]
+    out = []
+    for k, v in enumerate(vals):
+        try:
+            val = dec(v)
+            if carrier == "XS":
+                call = g["XS"](a=val)
+            elif carrier == "XD":
+                call = g["XD"](a=val)
+            else:
+                call = g["hp"].IdealResistor(r=val)
+            m = h.Module(name="Seq%d" % k)
+            inst = call()
+            for pn in call.ports:
+                inst.connect(pn, m.add(h.Signal(name="n_" + pn)))
+            m.add(inst, name="i")
+            pkg = h.to_proto(m)
+            ps = [p for p in pkg.modules[-1].instances[0].parameters if p.name in ("a", "r")]
+            out.append(ps[0].value.SerializeToString() if len(ps) == 1 else "missing")
+        except Exception as e:
+            out.append("raised:%s" % type(e).__name__)
+    return out
+
+
+def check_order(case):
+    """What a value exports as does not depend on what the process exported before it."""
+    vals = [case["first"], case["second"]]
+    alone = [par.pristine(_export_seq, case["carrier"], [v])[0] for v in vals]
+    fwd = par.pristine(_export_seq, case["carrier"], vals)
+    rev = par.pristine(_export_seq, case["carrier"], vals[::-1])[::-1]
+    out = []
+    for k, which in enumerate(("first", "second")):
+        for got, how in ((fwd[k], "after" if k else "before"), (rev[k], "before" if k else "after")):
+            if got != alone[k]:
+                out.append(("export_depends_on_history", "%s exported %s %s through %s gives %r; exported alone in a fresh process it gives %r" % (
+                    case[which], how, case["second" if which == "first" else "first"], case["carrier"], _show(got), _show(alone[k]))))
+    return out
+
+
+def _show(b):
+    if isinstance(b, str):
+        return b
+    g = H()
+    pv = g["vlsir"].ParamValue()
+    pv.ParseFromString(b)
+    return str(pv).replace("\n", " ")
+
+
 def check_case(case):
     if case["kind"] == "to_scalar":
         return check_to_scalar(case["val"])[0]
+    if case["kind"] == "order":
+        return check_order(case)
     return check_instance(case)[0]
 
 
+def _vals(case):
+    if case["kind"] == "to_scalar":
+        return [case["val"]]
+    if case["kind"] == "order":
+        return [case["first"], case["second"]]
+    return list(case["params"].values())
+
+
 def nontrivial(case):
-    vals = [case["val"]] if case["kind"] == "to_scalar" else list(case["params"].values())
+    vals = _vals(case)
     for v in vals:
         if v["t"] == "str":
             return True
@@ -364,8 +427,17 @@ def nontrivial(case):
 
 
 def feats(case):
-    vals = [case["val"]] if case["kind"] == "to_scalar" else list(case["params"].values())
-    f = {case["kind"] + ":" + (case.get("prim") or case.get("ext") or "")}
+    vals = _vals(case)
+    f = {case["kind"] + ":" + (case.get("prim") or case.get("ext") or case.get("carrier") or "")}
+    if case["kind"] == "order":
+        a, b = case["first"], case["second"]
+        if a["t"] == b["t"] == "pref":
+            va = Fraction(Decimal(a["v"][0])) * Fraction(10) ** a["v"][1]
+            vb = Fraction(Decimal(b["v"][0])) * Fraction(10) ** b["v"][1]
+            if va == vb and a != b:
+                f.add("same_value_written_differently")
+            if Decimal(a["v"][0]) == Decimal(b["v"][0]) and a["v"][0] != b["v"][0] and a["v"][1] == b["v"][1]:
+                f.add("same_mantissa_other_digits")
     for v in vals:
         f.add("val_" + v["t"])
         if v["t"] == "pref" and v["v"][1] != 0:
@@ -439,7 +511,8 @@ def strategies(tier):
         which = draw(st.sampled_from(["XD", "XD", "XF", "XS"]))
         if which == "XD":
             n = draw(st.integers(0, 4))
-            names = draw(st.lists(st.sampled_from(["a", "b", "w", "l", "m", "model", "tag", "x_1"]), min_size=n, max_size=n, unique=True))
+            names = draw(st.lists(st.sampled_from(["a", "b", "w", "l", "m", "model", "tag", "x_1", "delay", "rise", "fall", "width", "period", "td",
+                                                    "v1", "dc", "r", "c", "tpw", "name", "Delay"]), min_size=n, max_size=n, unique=True))
             return {"kind": "ext", "ext": "XD", "as_dict": draw(st.booleans()), "params": {k: draw(raw_any) for k in names}}
         if which == "XS":
             p = {"a": draw(scalar_val)}
@@ -457,9 +530,36 @@ def strategies(tier):
                 p[k] = draw(s)
         return {"kind": "ext", "ext": "XF", "params": p}
 
+    @st.composite
+    def order_case(draw):
+        a = draw(st.one_of(pref, pref, scalar_val))
+        mode = draw(st.integers(0, 5))
+        b = None
+        if a["t"] == "pref" and Decimal(a["v"][0]).is_finite() and mode <= 3:
+            d = Decimal(a["v"][0])
+            t = d.as_tuple()
+            if mode == 0:    # same mantissa, trailing zeros appended
+                z = draw(st.integers(1, 3))
+                b = {"t": "pref", "v": [str(Decimal((t.sign, t.digits + (0,) * z, t.exponent - z))), a["v"][1]]}
+            elif mode == 1:  # same mantissa, trailing zeros stripped / exponent form
+                n = d.normalize()
+                b = {"t": "pref", "v": [str(n), a["v"][1]]}
+            elif mode == 2:  # same value under another prefix
+                pb = draw(st.sampled_from(PREFIX_EXPS))
+                b = {"t": "pref", "v": [str(d.scaleb(a["v"][1] - pb) if len(t.digits) < 60 else d), pb]}
+            else:            # same digits, another prefix
+                b = {"t": "pref", "v": [a["v"][0], draw(st.sampled_from(PREFIX_EXPS))]}
+        if b is None or b == a:
+            b = draw(scalar_val)
+        if draw(st.booleans()):
+            a, b = b, a
+        return {"kind": "order", "carrier": draw(st.sampled_from(["XS", "XD", "R"])), "first": a, "second": b}
+
     scal_case = scalar_val.map(lambda v: {"kind": "to_scalar", "val": v})
     pc, ec = prim_case(), ext_case()
-    return st.sampled_from(["p", "p", "p", "p", "e", "e", "e", "s", "s", "s"]).flatmap(lambda k: {"p": pc, "e": ec, "s": scal_case}[k])
+    oc = order_case()
+    # the order cases fork four fresh processes each: 1 in 40
+    return st.integers(0, 39).flatmap(lambda k: oc if k == 0 else {0: pc, 1: pc, 2: pc, 3: pc, 4: ec, 5: ec, 6: ec}.get(k % 10, scal_case))
 
 
 def _eval(res, case):
@@ -468,6 +568,8 @@ def _eval(res, case):
             fails, note = check_to_scalar(case["val"])
             if note != "ok":
                 res.notes["to_scalar_" + note] += 1
+        elif case["kind"] == "order":
+            fails = check_order(case)
         else:
             fails, notes = check_instance(case)
             for k, v in notes.items():
@@ -483,6 +585,7 @@ def _eval(res, case):
 
 def shard(idx, n, tier):
     H()
+    par.server()
     import hypothesis
     from hypothesis import given, settings, HealthCheck, Phase
     res = core.Result()
